@@ -1327,7 +1327,9 @@ class ContractionTree:
                 self.childless.add(y)
 
         # pre-computed information
-        if legs is not None:
+        if (legs is not None) and (len(parent) != self.N):
+            # n.b. root legs are always the (ordered) output indices, the
+            # order of which precomputed legs don't necessarily match
             self.info[parent]["legs"] = legs
         if cost is not None:
             self.info[parent]["flops"] = cost
